@@ -22,7 +22,10 @@ workers, and every placement of `Stop` and of the ctx cancellations.
 * trace validation (code instrumented with the `verif` hooks): `trace_sound` — a log of hook events
   accepted by the driver's `traceOk` is a run of the model, so every safety invariant holds of the
   abstracted real state at every hook point;
-* the pre-fix variant: `stuck_reachable_old`.
+* the pre-fix variant: `stuck_reachable_old`;
+* arms no run reaches: `put_never_dropped`, `pop_never_empty`; direct use of the exported API (a result
+  stored after `RemoveGroup`, `Queue.Pop` on the empty queue): `direct_spec_of_model`, `direct_conservation`,
+  `direct_delivered_once`, `store_after_remove_kept`, `wStore_view` / `rdResults_view` / `subRemove_view`.
 
 Full statement of the property vs. what is proved: "RunJobs returns" is proved as
 "no reachable state is stuck" + "no schedule is longer than `measure cfg (init cfg)`"; turning this
@@ -244,6 +247,130 @@ theorem trace_sound {cfg : Cfg} {evs : Array Ev} {order : List Nat} (h : traceOk
     exact ⟨tk, htk, hk, delivered_at_most_once hk, fun j hj => (delivered_only_accepted hk j hj).1,
       wait_eq_accepted_minus_delivered hk, waitgroup_never_negative hk, (workers_le_max hk).1,
       (workers_le_max hk).2.2.2⟩
+
+/-! ### the two arms that no run reaches (worker.go:59 `default:` of the put-back, worker.go:258 `if err != nil` after `Pop`)
+
+Both are steps of the model (`wPut` with a full `workers` channel, `pPopEmpty`), the trace validator accepts
+their hook events (`wk.put-dropped`, `pq.pop-err`) exactly where the model enables them — and these two
+theorems say that this is nowhere: a log containing one of them is rejected. -/
+
+/-- the put-back `select` never finds the `workers` channel full: whenever a worker is about to put
+itself back there is room (capacity `maxWorkers`, and the worker itself is not in the channel) -/
+theorem put_never_dropped {cfg : Cfg} {s : State} (h : Reach cfg s) (hp : 0 < s.wPut) :
+    s.idle < cfg.maxWorkers := by
+  have hw := work_reach h
+  have h1 := hw.acct
+  have h2 := hw.le
+  simp only [busy] at h1
+  omega
+
+/-- `Pop` never fails in `processQueue`: the step "Pop returned an error" is never enabled -/
+theorem pop_never_empty {cfg : Cfg} {s : State} (h : Reach cfg s) (f : Bool) :
+    step cfg s (.pPopEmpty f) = none := by
+  have hp := pop_reach h f
+  simp only [step]
+  split
+  · rename_i hc; exact absurd hc.2 (hp hc.1)
+  · rfl
+
+/-! ### direct use of the public API: `Do` / `Results` / `NotifyResult` / `RemoveGroup` / `Queue` -/
+
+/-- the Spec predicate for direct histories holds of the model with explicit map entries, for EVERY
+sequence of calls: re-creating a missing entry in `storeResult` (worker.go:369, :374), in `Do`, `Results`
+and `NotifyResult` is invisible in the entry-less view (`DMon`) that the transition system uses -/
+theorem direct_spec_of_model (workers : Nat) (ops : List DOp) :
+    directSpec workers ops (drun workers {} ops) = true := by
+  have h0 : DRel ({} : DState) ({} : DMon) := ⟨fun _ => rfl, fun _ => rfl, rfl, rfl⟩
+  obtain ⟨m, hm⟩ := drel_run workers ops h0
+  simp [directSpec, hm]
+
+/-- EXACTLY ONCE at the level of the store, for every history the monitor accepts (the model's, by
+`direct_spec_of_model`, and the implementation's, checked by the driver): per group, the results of the
+finished jobs are, as multisets, those handed out by `Results` + those the client wiped with `RemoveGroup`
++ those still stored -/
+theorem direct_conservation {workers : Nat} {ops : List DOp} {outs : List DOut} {m : DMon}
+    (h : dmonRun workers {} ops outs = .ok m) (g v : Nat) :
+    (m.finished g).count v = (m.delivered g).count v + (m.wiped g).count v + (m.owed g).count v :=
+  dcons_run ops (m := {}) (fun _ _ => rfl) h g v
+
+/-- hence: a result is handed out at most once, and one that was handed out was not wiped -/
+theorem direct_delivered_once {workers : Nat} {ops : List DOp} {outs : List DOut} {m : DMon}
+    (h : dmonRun workers {} ops outs = .ok m) (g : Nat) (hn : (m.finished g).Nodup) :
+    (m.delivered g).Nodup ∧ ∀ v ∈ m.delivered g, v ∈ m.finished g ∧ v ∉ m.wiped g := by
+  refine ⟨?_, fun v hv => ?_⟩
+  · rw [List.nodup_iff_count]
+    intro v
+    have := direct_conservation h g v
+    have := (List.nodup_iff_count.mp hn) v
+    omega
+  · have h1 := direct_conservation h g v
+    have h2 := (List.nodup_iff_count.mp hn) v
+    have h3 : 0 < (m.delivered g).count v := List.count_pos_iff.mpr hv
+    exact ⟨List.count_pos_iff.mp (by omega), fun hw => by have := List.count_pos_iff.mpr hw; omega⟩
+
+/-- the path through `storeResult`'s `if !ok` arms (a result stored AFTER `RemoveGroup` of its group): the
+result is kept for the next `Results` of the group — alone, the results wiped before stay wiped — and the
+re-created channel holds a token -/
+theorem store_after_remove_kept (workers : Nat) (d : DState) (g v : Nat) :
+    drun workers d [.remove g, .finish g v, .poll g, .results g, .poll g, .results g] =
+      [.unit, .finished (min workers (d.outstanding - 1)), .token true, .vals [v], .token false, .vals []] := by
+  simp [drun, dstep, Store.remove, Store.store, Store.dataEnsured, Store.notifyEnsured, Store.poll, Store.results]
+
+/-- without the second arm the token would be lost: a store that finds no channel and does not create
+one leaves none (the send on a nil channel takes `default`) — the arm is what keeps the wake-up -/
+example (st : Store) (g r : Nat) (h : st.notify g = none) :
+    (setAt st.notify g ((st.notify g).map fun _ => true)) g = none ∧ ((st.store g r).notify g) = some true := by
+  simp [h, Store.store, Store.notifyEnsured]
+
+/-- the transition system treats `resultData` / `resultNotify` exactly as the monitor does (no entries):
+`storeResult` puts the job on top of the group's results and leaves a token … -/
+theorem wStore_view {cfg : Cfg} {s s' : State} {j : Job} (hs : step cfg s (.wStore j) = some s') :
+    s'.results.filter (isGrp j.grp) = j :: s.results.filter (isGrp j.grp) ∧ (s'.callers j.grp).notify = true := by
+  simp only [step, ite_some_none] at hs
+  obtain ⟨_, rfl⟩ := hs
+  simp [State.setC, upd, isGrp]
+
+/-- … `Results` hands the group's results out oldest first and leaves none … -/
+theorem rdResults_view {cfg : Cfg} {s s' : State} {g : Nat} (hs : step cfg s (.rdResults g) = some s') :
+    s'.rbatch = s.rbatch ++ (s.results.filter (isGrp g)).reverse ∧ s'.results.filter (isGrp g) = [] := by
+  simp only [step, ite_some_none] at hs
+  obtain ⟨_, rfl⟩ := hs
+  refine ⟨by simp only [State.setC]; rfl, ?_⟩
+  simp only [State.setC, List.filter_filter, isGrp]
+  apply List.filter_eq_nil_iff.mpr
+  intro a _
+  by_cases ha : a.grp = g <;> simp [ha]
+
+/-- … and `RemoveGroup` leaves neither results nor a token -/
+theorem subRemove_view {cfg : Cfg} {s s' : State} {g : Nat} (hs : step cfg s (.subRemove g) = some s') :
+    s'.results.filter (isGrp g) = [] ∧ (s'.callers g).notify = false := by
+  simp only [step, ite_some_none] at hs
+  obtain ⟨_, rfl⟩ := hs
+  refine ⟨?_, by simp [State.setC, upd]⟩
+  simp only [State.setC, List.filter_filter, isGrp]
+  apply List.filter_eq_nil_iff.mpr
+  intro a _
+  by_cases ha : a.grp = g <;> simp [ha]
+
+/-- `Queue`: `Pop` on the empty queue is an error and leaves it empty; otherwise head and rest — the
+`head?` / `tail` of the transition system's `pPop` -/
+theorem queuePop_spec (q : List Nat) : queuePop q = (q.head?, q.tail) ∧ (queuePop [] = (none, [])) :=
+  ⟨queuePop_eq q, rfl⟩
+
+/-- the direct-call hypotheses are met: a history with a result stored after `RemoveGroup`, one wiped, a
+refused item, and a `Pop` on the empty queue is accepted, with the expected bookkeeping -/
+example :
+    let ops : List DOp := [.submit 7 1, .submit 7 2, .submitCancelled 7, .finish 7 1, .remove 7, .finish 7 2,
+      .poll 7, .results 7, .qPop, .qAdd [4, 5], .qPop, .qLen]
+    drun 1 {} ops = [.accepted 1, .accepted 1, .refused, .finished 1, .unit, .finished 0, .token true, .vals [2],
+      .popped none, .unit, .popped (some 4), .len 1] ∧
+    directSpec 1 ops (drun 1 {} ops) = true ∧
+    -- an implementation that hands the late result out twice, loses its token, or answers `Pop` on the
+    -- empty queue with a value is rejected
+    directSpec 1 [.finish 7 2, .results 7] [.finished 0, .vals [2, 2]] = false ∧
+    directSpec 1 [.remove 7, .finish 7 2, .poll 7] [.unit, .finished 0, .token false] = false ∧
+    directSpec 1 [.qPop] [.popped (some 0)] = false := by
+  decide
 
 /-! ### the pre-fix variant gets stuck -/
 
